@@ -1,5 +1,13 @@
 // C17 harness: the real ygm::container::disjoint_set<int64_t> driven by a script.
-// Every rank parses the whole script (argv[1..]); tokens:
+// argv[1] = M:<mode>: w = the script runs on a ygm::comm over MPI_COMM_WORLD; sw:<split> / ws:<split> = the SAME script
+// (same function, same template instantiations) additionally runs on a sub-communicator built with MPI_Comm_split, before
+// (sw) or after (ws) the world run; split p = colour is the parity of the world rank, l = last rank alone vs. the rest, n = one
+// sub-communicator per node (the check only picks splits that keep the number of ranks per node uniform: ygm's layout
+// arithmetic assumes that).
+// Every colour group runs the script on its own sub-communicator; script ranks that do not exist there issue nothing.
+// Output lines are prefixed "@<run>.<container> " with run = w or s.
+// A token may be prefixed "1/" to address a SECOND disjoint_set<int64_t> alive on the same communicator.
+// Every rank parses the whole script (argv[2..]); tokens:
 //   u:<r>:<a>:<b>   rank r (or * = every rank) calls async_union(a, b)
 //   x:<r>:<a>:<b>   ... async_union_and_execute(a, b, cb)      (cb logs "c <epoch> a b")
 //   B               barrier()
@@ -17,76 +25,126 @@
 #include <ygm/comm.hpp>
 #include <ygm/container/disjoint_set.hpp>
 #include <set>
+#include <memory>
 
-static int g_epoch = 0;
-static int g_seg = 0;   // number of clear() calls that have returned on this rank
+static int g_epoch[2] = {0, 0};
+static int g_seg[2] = {0, 0};   // number of clear() calls that have returned on this rank, per container
+static std::string g_run = "w";
 
 static std::vector<std::string> split(const std::string& s, char sep) {
   std::vector<std::string> v; std::stringstream ss(s); std::string t;
   while (std::getline(ss, t, sep)) v.push_back(t);
   return v;
 }
+static void emit(int cid, const std::string& line) { hc::out("@" + g_run + "." + std::to_string(cid) + " " + line); }
 
-extern "C" int sim_main(int argc, char** argv) {
-  ygm::comm world(MPI_COMM_WORLD);
-  hc::open_out(world.rank());
+using dset_t = ygm::container::disjoint_set<int64_t>;
+
+// the scenario body: identical code (and template instantiations) whatever communicator it is given
+static void run_script(ygm::comm& c, int argc, char** argv, int first, bool two) {
+  g_epoch[0] = g_epoch[1] = 0; g_seg[0] = g_seg[1] = 0;
   {
-    ygm::container::disjoint_set<int64_t> ds(world);
-    std::set<int64_t> known;
-    const int me = world.rank(), n = world.size();
-    for (int i = 1; i < argc; ++i) {
-      auto f = split(argv[i], ':');
+    dset_t ds0(c);
+    std::unique_ptr<dset_t> ds1p;
+    if (two) ds1p.reset(new dset_t(c));
+    std::set<int64_t> known[2];
+    const int me = c.rank(), n = c.size();
+    for (int i = first; i < argc; ++i) {
+      std::string tok = argv[i];
+      int cid = 0;
+      if (tok.size() > 2 && tok[1] == '/') { cid = tok[0] - '0'; tok = tok.substr(2); }
+      if (cid == 1 && !two) continue;
+      dset_t& ds = cid == 0 ? ds0 : *ds1p;
+      auto f = split(tok, ':');
       if (f.empty()) continue;
       const std::string& op = f[0];
       if (op == "u" || op == "x") {
         int64_t a = atoll(f[2].c_str()), b = atoll(f[3].c_str());
-        known.insert(a); known.insert(b);
-        if (f[1] == "*" || atoi(f[1].c_str()) == me) {
+        bool all = f[1] == "*"; int r = all ? -1 : atoi(f[1].c_str());
+        if (!all && r >= n) continue;               // that rank does not exist on this communicator
+        known[cid].insert(a); known[cid].insert(b);
+        if (all || r == me) {
           if (op == "u") ds.async_union(a, b);
-          else ds.async_union_and_execute(a, b, [](const int64_t& oa, const int64_t& ob) {
-            hc::out("c " + std::to_string(g_epoch) + " " + std::to_string(oa) + " " + std::to_string(ob) + " " + std::to_string(g_seg));
-          });
+          else ds.async_union_and_execute(a, b, [](const int64_t& oa, const int64_t& ob, const int& cid) {
+            emit(cid, "c " + std::to_string(g_epoch[cid]) + " " + std::to_string(oa) + " " + std::to_string(ob) + " " + std::to_string(g_seg[cid]));
+          }, cid);
         }
       } else if (op == "B") {
-        world.barrier();
+        c.barrier();
       } else if (op == "D") {
         int id = atoi(f[1].c_str());
-        world.barrier();
+        c.barrier();
         if (me == 0) {
-          for (int64_t it : known)
-            ds.async_visit(it, [](auto& item_info, int id) {
-              hc::out("d " + std::to_string(id) + " " + std::to_string(item_info.first) + " " +
-                      std::to_string((int)item_info.second.get_rank()) + " " + std::to_string(item_info.second.get_parent()));
-            }, id);
+          for (int64_t it : known[cid])
+            ds.async_visit(it, [](auto& item_info, int id, int cid) {
+              emit(cid, "d " + std::to_string(id) + " " + std::to_string(item_info.first) + " " +
+                        std::to_string((int)item_info.second.get_rank()) + " " + std::to_string(item_info.second.get_parent()));
+            }, id, cid);
         }
-        world.barrier();
-        g_epoch = id + 1;
+        c.barrier();
+        g_epoch[cid] = id + 1;
       } else if (op == "N") {
         size_t ns = ds.num_sets(); size_t sz = ds.size();
-        hc::out("n " + f[1] + " " + std::to_string(ns) + " " + std::to_string(sz));
+        emit(cid, "n " + f[1] + " " + std::to_string(ns) + " " + std::to_string(sz));
       } else if (op == "F") {
         std::vector<int64_t> q; size_t p = 0;
-        for (int64_t it : known) {
+        for (int64_t it : known[cid]) {
           bool mine = f[2] == "e" || (f[2] == "a" && me == 0) || (f[2] == "s" && (int)(p % n) == me);
           if (mine) q.push_back(it);
           ++p;
         }
         auto res = ds.all_find(q);
-        for (auto& kv : res) hc::out("f " + f[1] + " " + std::to_string(kv.first) + " " + std::to_string(kv.second));
-        hc::out("fq " + f[1] + " " + std::to_string(q.size()) + " " + std::to_string(res.size()));
+        for (auto& kv : res) emit(cid, "f " + f[1] + " " + std::to_string(kv.first) + " " + std::to_string(kv.second));
+        emit(cid, "fq " + f[1] + " " + std::to_string(q.size()) + " " + std::to_string(res.size()));
       } else if (op == "A") {
         std::string id = f[1];
-        ds.for_all([&id](const int64_t& item, const int64_t& rep) {
-          hc::out("a " + id + " " + std::to_string(item) + " " + std::to_string(rep));
+        ds.for_all([&id, cid](const int64_t& item, const int64_t& rep) {
+          emit(cid, "a " + id + " " + std::to_string(item) + " " + std::to_string(rep));
         });
       } else if (op == "K") {
         // collective; may directly follow async_union calls (no barrier in between): clear() itself
         // must first complete everything in flight, then empty the container
-        ds.clear(); known.clear(); ++g_seg;
+        ds.clear(); known[cid].clear(); ++g_seg[cid];
       }
     }
-    world.barrier();
+    c.barrier();
   }
-  hc::out("end");
+  emit(0, "end");
+}
+
+static void run_world(int argc, char** argv, bool two) {
+  ygm::comm world(MPI_COMM_WORLD);
+  g_run = "w";
+  run_script(world, argc, argv, 2, two);
+}
+
+static void run_sub(int argc, char** argv, bool two, char kind) {
+  int wr = 0, ws = 1;
+  MPI_Comm_rank(MPI_COMM_WORLD, &wr); MPI_Comm_size(MPI_COMM_WORLD, &ws);
+  const char* ppn_s = getenv("SIMMPI_PPN"); int ppn = ppn_s ? atoi(ppn_s) : ws; if (ppn < 1) ppn = 1;
+  int colour = kind == 'p' ? (wr % 2) : kind == 'n' ? (wr / ppn) : (wr < ws - 1 ? 0 : 1);
+  MPI_Comm subc; MPI_Comm_split(MPI_COMM_WORLD, colour, wr, &subc);
+  {
+    ygm::comm sub(subc);
+    g_run = "s";
+    hc::out("@s.0 group " + std::to_string(colour) + " " + std::to_string(sub.rank()) + " " + std::to_string(sub.size()));
+    run_script(sub, argc, argv, 2, two);
+  }
+  MPI_Comm_free(&subc);
+}
+
+extern "C" int sim_main(int argc, char** argv) {
+  int wr = 0;
+  MPI_Comm_rank(MPI_COMM_WORLD, &wr);
+  hc::open_out(wr);
+  auto m = split(argc > 1 ? argv[1] : "M:w", ':');      // M:<w|sw|ws>[:<p|l>][:2]
+  std::string mode = m.size() > 1 ? m[1] : "w";
+  char kind = m.size() > 2 && !m[2].empty() ? m[2][0] : 'p';
+  bool two = false;
+  for (auto& x : m) if (x == "2") two = true;
+  if (mode == "sw") { run_sub(argc, argv, two, kind); run_world(argc, argv, two); }
+  else if (mode == "ws") { run_world(argc, argv, two); run_sub(argc, argv, two, kind); }
+  else run_world(argc, argv, two);
+  hc::out("done");
   return 0;
 }
